@@ -115,7 +115,7 @@ class SO3Spec(Spec):
         if self.kind == "mrp":
             r = O.axang_to_mrp(axis, th)
             if not canonical:
-                flip = (rng.random(N) < 0.35) & (th > 1e-3)
+                flip = (rng.random(N) < 0.35) & (th > 2e-2)  # shadow norm <= ~200: error amplification ~|r|^2
                 r = np.where(flip[:, None], O.axang_to_mrp(axis, th - 2 * PI), r)
             return r
         R = O.rodrigues(axis * th[:, None])
@@ -138,7 +138,7 @@ class SO3Spec(Spec):
         r = q[:, 1:] / (1 + q[:, :1])
         if not canonical:
             n2 = np.sum(r * r, axis=1)
-            flip = (rng.random(N) < 0.35) & (n2 > 1e-6)
+            flip = (rng.random(N) < 0.35) & (n2 > 2.5e-5)
             r = np.where(flip[:, None], -r / np.where(n2 > 0, n2, 1)[:, None], r)
         return r
 
@@ -146,7 +146,7 @@ class SO3Spec(Spec):
         """|pitch| distance to pi/2 of matrices R"""
         return PI / 2 - np.abs(np.arcsin(np.clip(-R[..., 2, 0], -1, 1)))
 
-    def rand(self, rng, N, hi=PI, canonical=False, near_hi=True):
+    def rand(self, rng, N, hi=PI, canonical=False, near_hi=True, **kw):
         if self.kind == "euler":
             out = np.empty((0, 3))
             while len(out) < N:
@@ -165,7 +165,7 @@ class SO3Spec(Spec):
         th = angle_mix(rng, N, hi, near_hi)
         return self.from_axang(axis, th, rng, canonical)
 
-    def alg_rand(self, rng, N, hi=2 * PI - 0.05):
+    def alg_rand(self, rng, N, hi=2 * PI - 0.05, **kw):
         return O.random_axes(rng, N) * angle_mix(rng, N, hi)[:, None]
 
 
@@ -220,10 +220,10 @@ class SE3Spec(Spec):
     def alg_angle(self, X):
         return np.linalg.norm(np.asarray(X)[:, 3:], axis=-1)
 
-    def rand(self, rng, N, hi=PI, canonical=False, tlo=1e-6, thi=1e3, near_hi=True):
+    def rand(self, rng, N, hi=PI, canonical=False, tlo=1e-6, thi=1e3, near_hi=True, **kw):
         return np.concatenate([trans_mix(rng, N, 3, tlo, thi), self.so3.rand(rng, N, hi, canonical, near_hi)], axis=1)
 
-    def alg_rand(self, rng, N, hi=2 * PI - 0.05, tlo=1e-6, thi=1e3):
+    def alg_rand(self, rng, N, hi=2 * PI - 0.05, tlo=1e-6, thi=1e3, **kw):
         return np.concatenate([trans_mix(rng, N, 3, tlo, thi), self.so3.alg_rand(rng, N, hi)], axis=1)
 
     def split(self, P):
@@ -283,10 +283,10 @@ class SE23Spec(Spec):
     def alg_angle(self, X):
         return np.linalg.norm(np.asarray(X)[:, 6:], axis=-1)
 
-    def rand(self, rng, N, hi=PI, canonical=False, tlo=1e-6, thi=1e3, near_hi=True):
+    def rand(self, rng, N, hi=PI, canonical=False, tlo=1e-6, thi=1e3, near_hi=True, **kw):
         return np.concatenate([trans_mix(rng, N, 6, tlo, thi), self.so3.rand(rng, N, hi, canonical, near_hi)], axis=1)
 
-    def alg_rand(self, rng, N, hi=2 * PI - 0.05, tlo=1e-6, thi=1e3):
+    def alg_rand(self, rng, N, hi=2 * PI - 0.05, tlo=1e-6, thi=1e3, **kw):
         return np.concatenate([trans_mix(rng, N, 6, tlo, thi), self.so3.alg_rand(rng, N, hi)], axis=1)
 
 
@@ -369,8 +369,8 @@ class SE2Spec(Spec):
         return np.concatenate([trans_mix(rng, N, 2, tlo, thi),
                                (angle_mix(rng, N, hi) * rng.choice([-1.0, 1.0], N))[:, None]], axis=1)
 
-    def alg_rand(self, rng, N, hi=2 * PI - 0.05, tlo=1e-6, thi=1e3):
-        return self.rand(rng, N, hi, tlo, thi)
+    def alg_rand(self, rng, N, hi=2 * PI - 0.05, tlo=1e-6, thi=1e3, **kw):
+        return self.rand(rng, N, hi, tlo=tlo, thi=thi)
 
 
 class RnSpec(Spec):
@@ -406,7 +406,7 @@ class RnSpec(Spec):
     def rand(self, rng, N, hi=PI, tlo=1e-6, thi=1e3, **kw):
         return trans_mix(rng, N, self.k, tlo, thi)
 
-    def alg_rand(self, rng, N, hi=None, tlo=1e-6, thi=1e3):
+    def alg_rand(self, rng, N, hi=None, tlo=1e-6, thi=1e3, **kw):
         return trans_mix(rng, N, self.k, tlo, thi)
 
 
@@ -474,7 +474,7 @@ class ProductSpec(Spec):
         return np.concatenate([p.rand(rng, N, hi, **kw) for p in self.parts], axis=1)
 
     def alg_rand(self, rng, N, hi=2 * PI - 0.05, **kw):
-        return np.concatenate([p.alg_rand(rng, N, hi) for p in self.parts], axis=1)
+        return np.concatenate([p.alg_rand(rng, N, hi, **kw) for p in self.parts], axis=1)
 
 
 SO3S = {k: SO3Spec(k) for k in ("quat", "mrp", "dcm", "euler")}
